@@ -97,8 +97,12 @@ impl<T: Ord> MemoryBoundedQueue<T> {
     pub fn push(&self, item: T, size_bytes: usize) -> Result<(), PushError> {
         let mut inner = self.inner.lock().unwrap();
 
-        // Wait while queue would be too full
-        while inner.current_size + size_bytes > self.capacity_bytes && !inner.closed {
+        // Wait while queue would be too full. An item larger than the whole capacity can never
+        // fit: admit it once nothing else is queued, otherwise the push would block forever.
+        while inner.current_size + size_bytes > self.capacity_bytes
+            && inner.current_size > 0
+            && !inner.closed
+        {
             inner = self.not_full.wait(inner).unwrap();
         }
 
